@@ -171,19 +171,10 @@ def run(P, C, tier):
             C.ob("R3", "%s:%s" % (short, what.replace(" ", "-").replace(",", "")), ok, hit[0]["loc"] if hit else b.loc(), det)
         # a writer that recurses into sub-entities does so on every path: a child row can belong to a room although
         # its parent does not (explicit room_id on the sub-entity), so the recursion must not hang on the parent's state
-        rec = [bi for bi, t in b.live_calls() if callee_name(t) == mir.normalize(b.id) or callee_name(t).endswith("::" + short)]
+        rec, heads = mir.recursion_loops(b)
         if rec:
-            hs = []
-            for hb, ht in b.live_calls():
-                if callee_name(ht).endswith("::next") and "d:ForLoop" in ht["at"][1]:
-                    loop = {x for x in b.reach_after(hb) if hb in b.reach_after(x)}
-                    if all(r in loop for r in rec):
-                        hs.append((len(loop), hb))
-            ok = False
-            if hs:
-                outer = [hb for _, hb in hs if all(b.dominates(hb, h2) for _, h2 in hs)][0]
-                ok = not (b.reachable(0, avoid_blocks={outer}) & set(b.exits()))
-            C.ob("R3", "%s:sub-entities-always-visited" % short, ok, b.loc(rec[0]), "every path through %s reaches the loop that recurses into the sub-entities (no early exit on the parent's room or version)" % short)
+            ok = bool(heads) and not (b.reachable(0, avoid_blocks=set(heads)) & set(b.exits()))
+            C.ob("R3", "%s:sub-entities-always-visited" % short, ok, b.loc(rec[0]), "every path through %s reaches a loop that recurses into the sub-entities (no early exit on the parent's room or version)" % short)
         # entity argument belongs to the same row as the room
         for m in ms:
             base_r = m["room"].rsplit(".", 1)[0]
